@@ -309,6 +309,12 @@ def k_cli(run, case):
     be the documented alignment - determined from the first n pairs when n is given - and the
     recorded matrix clause is judged by this check's own kind 'recorded').
     """
+    if case.get("tool") == "traj":
+        # evo_traj --ref with -a / -s / --align_origin (C15's executor and export oracle)
+        from vmon.props import C15
+        C15.k_cli(run, case)
+        run.hit("evo_traj runs with alignment options judged")
+        return
     from vmon.props import C01, C02
     (C01.k_cli if case.get("tool", "ape") == "ape" else C02.k_cli)(run, case)
     run.hit("evo_ape / evo_rpe runs with alignment options judged")
@@ -343,7 +349,12 @@ def main(run):
                             force_options=[["n_to_align", "scale_only"], ["n_to_align"], ["scale_only"]][(i // 2) % 3]))
     for i in run.mine(n // 4):
         k_recorded(run, run.case("recorded", i))
-    run.need("evo_ape / evo_rpe runs with alignment options judged", "positions moved by exactly the returned similarity",
+    combos = [dict(align=a, correct_scale=cs, align_origin=o) for a, cs, o in
+              ((True, False, False), (True, True, False), (False, True, False), (False, False, True), (False, True, True))]
+    for i in run.mine({"quick": 60, "thorough": 1500}[run.tier]):
+        k_cli(run, run.case("cli", 10**6 + i, tool="traj", fmt=["tum", "euroc", "kitti"][i % 3],
+                            force=dict(combos[i % 5], use_ref=True, merge=False, sync=False)))
+    run.need("evo_traj runs with alignment options judged", "evo_ape / evo_rpe runs with alignment options judged", "positions moved by exactly the returned similarity",
              "orientations rotated by exactly the returned rotation", "reference unchanged",
              "align-result: optimal vs Horn", "result depends on the first n pairs only",
              "re-alignment is the identity", "RMSE not larger than before",
